@@ -306,8 +306,46 @@ def handleWhole : List String → String
       | .error e => return "error:" ++ toString e
   | _ => "bad-op"
 
+
+def optNat (s : String) : Option (Option Nat) := if s = "-" then some none else s.toNat?.map some
+
+def showOptNat : Option Nat → String
+  | none => "-"
+  | some n => toString n
+
+def showMetricState (s : MetricState) (e : Option PyErr) : String :=
+  let nm := match s.name with
+    | .none => "None" | .capacity => "capacity" | .naive => "naive" | .fixed => "fixed"
+    | .effectiveThroughput => "effective_throughput"
+  let fn := match s.func with
+    | .noFunc => "None" | .shannonSumCapacity => "calc_shannon_sum_capacity"
+    | .effectiveThroughput => "_calc_effective_throughput"
+  nm ++ "," ++ fn ++ "," ++ showOptNat s.args.numStreams ++ "," ++ showOptNat s.args.modulator ++ "," ++
+    showOptNat s.args.packetLength ++ "," ++ (match e with | none => "ok" | some x => toString x)
+
+/-- metric req:ns:mod:plen;…  -> state and exception after every request -/
+def handleMetric (ops : String) : String := Id.run do
+  let mut s : MetricState := {}
+  let mut out : List String := []
+  for op in ops.splitOn ";" do
+    match op.splitOn ":" with
+    | [r, ns, md, pl] =>
+      let req : MetricReq := if r = "None" then .none else if r = "capacity" then .capacity
+        else if r = "naive" then .naive else if r = "fixed" then .fixed
+        else if r = "effective_throughput" then .effectiveThroughput else .unknown
+      let some ns := optNat ns | return "bad-op"
+      let some md := optNat md | return "bad-op"
+      let some pl := optNat pl | return "bad-op"
+      let (s', e) := setMetric s req { numStreams := ns, modulator := md, packetLength := pl }
+      s := s'
+      out := out ++ [showMetricState s e ++ "," ++ (match bdPath s with
+        | .noReduction => "no-reduction" | .fixedOrNaive => "fixed-or-naive" | .decide => "decide")]
+    | _ => return "bad-op"
+  return ";".intercalate out
+
 def handleAll (toks : List String) : String :=
   match toks with
+  | ["metric", ops] => handleMetric ops
   | op :: _ =>
     if op = "bdwf" ∨ op = "bdnowf" ∨ op = "wbd" ∨ op = "enone" ∨ op = "ered" ∨ op = "edec" then handleWhole toks
     else handle toks
